@@ -1320,4 +1320,83 @@ theorem updMany_perm (kvs kvs' : List (Nat × Cell)) (hp : kvs.Perm kvs') (hn : 
 example : updMany (fun _ => none) [(8, some 1), (7, some 2)] 7 ≠ updMany (fun _ => none) [(7, some 1), (8, some 2)] 7 := by
   decide +kernel
 
+
+/-! ## 14. Histories: a flat solve does not depend on the changes the variant held before -/
+
+/-- **a flat block step resets the change of every quantity, not only of the block's unknowns**: after a flat block that
+calls the solver, every variable has the flat change (0, or 1 for a log-variable) and every other quantity none --
+whatever the variant held before (a trend left by an earlier growth-mode solve, or assigned by the user, also for
+exogenous variables and for quantities the plan keeps fixed) -/
+theorem blockStep_flat_resets_all (cfg : Config) (hflat : cfg.flat = true) (solver : Solver) (bid : Nat) (b : Block)
+    (v v' : Variant) (h : blockStep cfg solver bid b v = .ok v') (hns : blockSkipped cfg b = false) :
+    v'.change = (zeroChanges cfg.isVar cfg.logly v).change := by
+  unfold blockStep at h
+  simp only [hns, Bool.false_eq_true, if_false] at h
+  split at h
+  · cases h
+  · cases h
+    funext q
+    rw [writeBack_change_frame]
+    · simp [mkEvaluator, hflat]
+    · simp [mkEvaluator, hflat]
+
+theorem blockStep_flat_makes_ready (cfg : Config) (solver : Solver) (bid : Nat) (b : Block)
+    (v v' : Variant) (h : blockStep cfg solver bid b v = .ok v') (hns : blockSkipped cfg b = false) :
+    FlatReady cfg v' := by
+  intro hflat
+  rw [blockStep_flat_resets_all cfg hflat solver bid b v v' h hns]
+  rfl
+
+theorem blockStep_skipped (cfg : Config) (solver : Solver) (bid : Nat) (b : Block) (v v' : Variant)
+    (h : blockStep cfg solver bid b v = .ok v') (hs : blockSkipped cfg b = true) : v' = v := by
+  unfold blockStep at h
+  simp only [hs, if_true] at h
+  cases h; rfl
+
+/-- **block recursion for any history**: `block_recursion` without the hypothesis that the variant is already flat.
+Blocks skipped before the first solved block do not touch the variant; the first solved block makes the variant flat
+(`blockStep_flat_resets_all`); from there on the original induction applies. So a flat re-solve of a model object that
+holds stale trends yields a stored variant on which every equation of every solved block holds. -/
+theorem block_recursion_any_history (cfg : Config) (solver : Solver) (tol : Rat) (hs : SolverCertified cfg solver tol)
+    (blocks : List Block) (bid : Nat) (v v' : Variant)
+    (hrun : blockLoopFrom cfg solver bid blocks v = .ok v') (hord : Ordered cfg blocks) :
+    ∀ b ∈ blocks, blockSkipped cfg b = false → BlockHolds cfg tol b v' := by
+  induction blocks generalizing bid v with
+  | nil => intro b hb; cases hb
+  | cons b0 rest ih =>
+    have hrun0 := hrun
+    simp only [blockLoopFrom] at hrun
+    split at hrun
+    · cases hrun
+    · rename_i v1 h1
+      have hord' : Ordered cfg rest := (List.pairwise_cons.mp hord).2
+      cases hsk : blockSkipped cfg b0 with
+      | true =>
+        have hv1 : v1 = v := blockStep_skipped cfg solver bid b0 v v1 h1 hsk
+        intro b hb hns
+        rcases List.mem_cons.mp hb with rfl | hb
+        · rw [hsk] at hns; cases hns
+        · exact ih (bid + 1) v1 hrun hord' b hb hns
+      | false =>
+        -- the head block is solved: from here on the variant is flat-ready and `block_recursion` applies to the whole list
+        have hv1 := blockStep_flat_makes_ready cfg solver bid b0 v v1 h1 hsk
+        intro b hb hns
+        rcases List.mem_cons.mp hb with rfl | hb
+        · have hsolved := blockStep_solves cfg solver tol hs bid b v v1 h1 hns
+          intro e he d hd
+          obtain ⟨x, hx, hbd⟩ := hsolved e he d hd
+          refine ⟨x, ?_, hbd⟩
+          rw [blockLoop_preserves cfg solver rest (bid + 1) v1 v' hrun hv1 e
+            (fun b' hb' => (List.pairwise_cons.mp hord).1 b' hb' e he) d]
+          exact hx
+        · exact block_recursion cfg solver tol hs rest (bid + 1) v1 v' hrun hv1 hord' b hb hns
+
+/-- the statement for `steadyNonlinear` with the accepting wrapper around an arbitrary iteration: no certificate
+assumed, no assumption on the history of the variant -/
+theorem steadyNonlinear_certified_any_history (cfg : Config) (tol : Rat) (s : Solver) (blocks : List Block)
+    (v v' : Variant) (hrun : steadyNonlinear cfg (certify tol cfg.loggable s) blocks v = .ok v')
+    (hord : Ordered cfg blocks) :
+    ∀ b ∈ blocks, blockSkipped cfg b = false → BlockHolds cfg tol b v' :=
+  block_recursion_any_history cfg _ tol (certify_certified cfg tol s) blocks 0 v v' hrun hord
+
 end IrisVerif.C05
